@@ -14,6 +14,7 @@ import (
 
 func init() {
 	register(&PropertyCheck{ID: "C05", Level: "other", Run: checkC05, Canaries: []Canary{
+		{Name: "rf8-width-by-a-shift-loop", Silent: true, Edits: []Edit{{"wiretypes.go", "\tx := v\n\tn := i\n\tfor {\n\t\tencodedByte := byte(x % 128)\n\t\tx = x / 128\n\t\tif x > 0 {\n\t\t\tencodedByte = encodedByte | 128\n\t\t}\n\t\tif i < len(data) {\n\t\t\tdata[i] = encodedByte\n\t\t}\n\t\ti++\n\t\tif x == 0 {\n\t\t\tbreak\n\t\t}\n\t}\n\treturn i - n\n}\n\nfunc (v vbint) width() int {\n\treturn v.fill(_LEN, 0)", "\tn := i\n\tx := uint(v)\n\t// all but the last group of 7 bits carry the continuation bit\n\tfor ; x >= 128; x >>= 7 {\n\t\tif i < len(data) {\n\t\t\tdata[i] = byte(x) | 128\n\t\t}\n\t\ti++\n\t}\n\tif i < len(data) {\n\t\tdata[i] = byte(x)\n\t}\n\ti++\n\treturn i - n\n}\n\n// width returns the number of bytes fill writes, one for each started\n// group of 7 bits.\nfunc (v vbint) width() int {\n\tn := 1\n\tfor x := uint(v) >> 7; x > 0; x >>= 7 {\n\t\tn++\n\t}\n\treturn n"}}},
 		{Name: "adv5-B1-open-tail-converted-to-a-string-per-item", Rule: "R5.2", Where: "(*UserProp).UnmarshalBinary", Edits: []Edit{{"wiretypes.go", "\tv[0] = string(key)\n\n\ti := len(v[0]) + 2\n\tvar val wstring\n\tif err := val.UnmarshalBinary(data[i:]); err != nil {\n\t\treturn unmarshalErr(v, \"value\", err.(*Malformed))\n\t}\n\tv[1] = string(val)", "\ti := len(key) + 2\n\tvar val wstring\n\tif err := val.UnmarshalBinary(data[i:]); err != nil {\n\t\treturn unmarshalErr(v, \"value\", err.(*Malformed))\n\t}\n\t// key and value share one string, a single conversion instead of\n\t// one per element\n\ts := string(data[2:])\n\tv[0] = s[:len(key)]\n\tv[1] = s[i : i+len(val)]"}}},
 		{Name: "rf7-filter-loop-keeps-going-after-an-error", Rule: "R5.1", Where: "(*Subscribe).UnmarshalBinary#loop1", Edits: []Edit{{"buffer.go", "\tb.i += n\n}\n", "\tb.i += n\n}\n\n// getRest reads everything up to the end of data and returns it as\n// a copy. After a failure the result still has the size of the\n// unread data though nothing is read into it.\nfunc (b *buffer) getRest() []byte {\n\trest := make([]byte, len(b.data)-b.i)\n\tif b.err == nil {\n\t\tb.i += copy(rest, b.data[b.i:])\n\t}\n\treturn rest\n}\n"}, {"suback.go", "\tp.reasonCodes = make([]uint8, len(data)-b.i)\n\n\tfor i, _ := range p.reasonCodes {\n\t\tvar v wuint8\n\t\tb.get(&v)\n\t\tp.reasonCodes[i] = uint8(v)\n\t}\n\treturn b.err", "\t// payload, one reason code per byte\n\tp.reasonCodes = b.getRest()\n\treturn b.Err()"}, {"subscribe.go", "\tfor {\n\t\tvar f TopicFilter\n\t\tb.get(&f.filter)\n\t\tb.get(&f.options)\n\t\tif b.err != nil {\n\t\t\tbreak\n\t\t}\n\t\tp.filters = append(p.filters, f)\n\t\tif b.i == len(data) {\n\t\t\tbreak\n\t\t}\n\t}\n\treturn b.err", "\t// payload, the first filter is read even if there is no more\n\t// data as at least one is required\n\tfor more := true; more; more = !b.atEnd() {\n\t\tvar f TopicFilter\n\t\tb.get(&f.filter)\n\t\tb.get(&f.options)\n\t\tif b.Err() == nil {\n\t\t\tp.filters = append(p.filters, f)\n\t\t}\n\t}\n\treturn b.Err()"}, {"unsuback.go", "\tp.reasonCodes = make([]uint8, len(data)-b.i)\n\n\tfor i, _ := range p.reasonCodes {\n\t\tvar v wuint8\n\t\tb.get(&v)\n\t\tp.reasonCodes[i] = uint8(v)\n\t}\n\treturn b.err", "\t// payload, one reason code per byte\n\tp.reasonCodes = b.getRest()\n\treturn b.Err()"}, {"unsubscribe.go", "\tfor {\n\t\tvar f wstring\n\t\tb.get(&f)\n\t\tif b.err != nil {\n\t\t\tbreak\n\t\t}\n\t\tp.filters = append(p.filters, f)\n\t\tif b.i == len(data) {\n\t\t\tbreak\n\t\t}\n\t}\n\treturn b.err", "\t// payload, the first filter is read even if there is no more\n\t// data as at least one is required\n\tfor more := true; more; more = !b.atEnd() {\n\t\tvar f wstring\n\t\tb.get(&f)\n\t\tif b.Err() != nil {\n\t\t\tbreak\n\t\t}\n\t\tp.filters = append(p.filters, f)\n\t}\n\treturn b.Err()"}}},
 		{Name: "rf7-filter-loop-tests-the-accessor", Silent: true, Edits: []Edit{{"buffer.go", "\tb.i += n\n}\n", "\tb.i += n\n}\n\n// getRest reads everything up to the end of data and returns it as\n// a copy. After a failure the result still has the size of the\n// unread data though nothing is read into it.\nfunc (b *buffer) getRest() []byte {\n\trest := make([]byte, len(b.data)-b.i)\n\tif b.err == nil {\n\t\tb.i += copy(rest, b.data[b.i:])\n\t}\n\treturn rest\n}\n"}, {"suback.go", "\tp.reasonCodes = make([]uint8, len(data)-b.i)\n\n\tfor i, _ := range p.reasonCodes {\n\t\tvar v wuint8\n\t\tb.get(&v)\n\t\tp.reasonCodes[i] = uint8(v)\n\t}\n\treturn b.err", "\t// payload, one reason code per byte\n\tp.reasonCodes = b.getRest()\n\treturn b.Err()"}, {"subscribe.go", "\tfor {\n\t\tvar f TopicFilter\n\t\tb.get(&f.filter)\n\t\tb.get(&f.options)\n\t\tif b.err != nil {\n\t\t\tbreak\n\t\t}\n\t\tp.filters = append(p.filters, f)\n\t\tif b.i == len(data) {\n\t\t\tbreak\n\t\t}\n\t}\n\treturn b.err", "\t// payload, the first filter is read even if there is no more\n\t// data as at least one is required\n\tfor more := true; more; more = !b.atEnd() {\n\t\tvar f TopicFilter\n\t\tb.get(&f.filter)\n\t\tb.get(&f.options)\n\t\tif b.Err() != nil {\n\t\t\tbreak\n\t\t}\n\t\tp.filters = append(p.filters, f)\n\t}\n\treturn b.Err()"}, {"unsuback.go", "\tp.reasonCodes = make([]uint8, len(data)-b.i)\n\n\tfor i, _ := range p.reasonCodes {\n\t\tvar v wuint8\n\t\tb.get(&v)\n\t\tp.reasonCodes[i] = uint8(v)\n\t}\n\treturn b.err", "\t// payload, one reason code per byte\n\tp.reasonCodes = b.getRest()\n\treturn b.Err()"}, {"unsubscribe.go", "\tfor {\n\t\tvar f wstring\n\t\tb.get(&f)\n\t\tif b.err != nil {\n\t\t\tbreak\n\t\t}\n\t\tp.filters = append(p.filters, f)\n\t\tif b.i == len(data) {\n\t\t\tbreak\n\t\t}\n\t}\n\treturn b.err", "\t// payload, the first filter is read even if there is no more\n\t// data as at least one is required\n\tfor more := true; more; more = !b.atEnd() {\n\t\tvar f wstring\n\t\tb.get(&f)\n\t\tif b.Err() != nil {\n\t\t\tbreak\n\t\t}\n\t\tp.filters = append(p.filters, f)\n\t}\n\treturn b.Err()"}}},
